@@ -104,6 +104,96 @@ def edge_tree_scopes(tier):
 
 
 # ---------------------------------------------------------------------------
+# hash set / array set scopes
+# ---------------------------------------------------------------------------
+
+
+def hset_scopes(tier, fill=1, rnd=True):
+    q = [
+        S("hset", type="HU64", mode="bfs", slots=4, cap=4, vals=keys(6), fill=fill),
+        S("hset", type="HWeak", mode="bfs", slots=4, cap=4, vals=keys(6), fill=fill),
+        S("hset", type="HU8", mode="bfs", slots=3, cap=3, vals="0,1,2,3,4,255", fill=fill),
+        S("hset", type="HU32", mode="bfs", slots=3, cap=2, vals=keys(5), fill=fill),
+        S("hset", type="HWeak", mode="bfs", slots=1, cap=1, vals=keys(4), fill=fill),
+    ]
+    if rnd:
+        q += [
+            S("hset", type="HU64", mode="random", slots=32, cap=32, vals=keys(80), histories=100, length=400, fill=fill),
+            S("hset", type="HWeak", mode="random", slots=24, cap=24, vals=keys(60), histories=100, length=400, fill=fill),
+        ]
+    if tier == "quick":
+        return q
+    t = list(q)
+    t += [
+        S("hset", type="HU32", mode="bfs", slots=5, cap=5, vals=keys(7), fill=fill, timeout=3000),
+        S("hset", type="HWeak", mode="bfs", slots=5, cap=5, vals=keys(7), fill=fill, timeout=3000),
+        S("hset", type="HU64", mode="bfs", slots=5, cap=4, vals=keys(7), fill=fill, timeout=3000),
+        S("hset", type="HU8", mode="bfs", slots=6, cap=6, vals=keys(7), fill=0, max_states=300000, timeout=3000),
+    ]
+    if rnd:
+        t += [
+            S("hset", type="HU64", mode="random", slots=1000, cap=1000, vals=keys(2500), histories=6, length=20000, checkpoint=500, fill=0),
+            S("hset", type="HU32", mode="random", slots=100, cap=100, vals=keys(250), histories=200, length=1500, checkpoint=10, fill=fill),
+            S("hset", type="HWeak", mode="random", slots=40, cap=40, vals=keys(100), histories=1000, length=400, fill=fill),
+        ]
+    return t
+
+
+def aset_scopes(tier, fill=1, rnd=True, logs=True):
+    q = [
+        S("aset", type="A8u8", mode="bfs", slots=4, vals=keys(6, 1), fill=fill),
+        S("aset", type="A8u16", mode="bfs", slots=3, max_slots=5, vals=keys(6, 1), fill=fill),
+        S("aset", type="A16keyed", mode="bfs", slots=4, vals=keys(5, 1), updates=1, fill=fill),
+        S("aset", type="A64u64", mode="bfs", slots=4, vals="0,1,5,18446744073709551615,7", fill=fill),
+        S("aset", type="A32u64", mode="bfs", slots=0, max_slots=2, vals="1,2,3", fill=fill),
+        S("aset", type="A16u32", mode="bfs", slots=4, vals=keys(6, 1), fill=fill),
+    ]
+    if logs:
+        q += [
+            S("aset", type="A16log", mode="bfs", slots=5, vals=keys(6, 1), fill=0),
+            S("aset", type="A8log", mode="random", slots=70, vals=keys(150, 1), histories=40, length=500, fill=0),
+        ]
+    if rnd:
+        q += [
+            S("aset", type="A32u16", mode="random", slots=40, max_slots=60, vals=keys(100, 1), histories=100, length=400, fill=fill),
+            S("aset", type="A32keyed", mode="random", slots=30, vals=keys(70, 1), updates=1, histories=100, length=400, fill=fill),
+        ]
+    if tier == "quick":
+        return q
+    t = list(q)
+    t += [
+        S("aset", type="A8u8", mode="bfs", slots=5, vals=keys(7, 1), fill=fill, timeout=3000),
+        S("aset", type="A64u8", mode="bfs", slots=5, vals=keys(7, 1), fill=fill, timeout=3000),
+        S("aset", type="A32keyed", mode="bfs", slots=4, max_slots=5, vals=keys(5, 1), updates=1, fill=fill, timeout=3000),
+        S("aset", type="A16log", mode="bfs", slots=6, vals=keys(7, 1), fill=0, timeout=3000),
+    ]
+    if rnd:
+        t += [
+            S("aset", type="A16u32", mode="random", slots=1000, vals=keys(2500, 1), histories=4, length=8000, checkpoint=200, fill=0),
+            S("aset", type="A8u64", mode="random", slots=300, vals=keys(600, 1), histories=10, length=4000, checkpoint=50, fill=0),
+            S("aset", type="A16log", mode="random", slots=2000, vals=keys(4000, 1), histories=2, length=12000, checkpoint=400, fill=0),
+            S("aset", type="A8log", mode="random", slots=255, vals=keys(500, 1), histories=10, length=3000, checkpoint=50, fill=0),
+        ]
+    return t
+
+
+def edge_other_scopes(tier):
+    return [
+        S("hset", type="HU64", mode="bfs", slots=0, cap=0, vals="0,1"),
+        S("hset", type="HU64", mode="bfs", slots=1, cap=1, vals="0,1,18446744073709551615"),
+        S("hset", type="HU8", mode="bfs", slots=2, cap=2, vals="0,1,255"),
+        S("hset", type="HWeak", mode="bfs", slots=2, cap=2, vals="0,1,2,4294967295"),
+        S("hset", type="HU32", mode="bfs", slots=2, cap=0, vals="0,1"),
+        S("aset", type="A8u8", mode="bfs", slots=0, vals="0,1,255"),
+        S("aset", type="A8u8", mode="bfs", slots=1, vals="0,1,255"),
+        S("aset", type="A16u32", mode="bfs", slots=2, vals="0,1,4294967295"),
+        S("aset", type="A64u64", mode="bfs", slots=2, vals="0,1,18446744073709551615"),
+        S("aset", type="A8u16", mode="random", slots=300, vals=keys(400), histories=4, length=2500, checkpoint=50),
+        S("aset", type="A8u64", mode="random", slots=256, vals=keys(400), histories=4, length=2500, checkpoint=50),
+    ]
+
+
+# ---------------------------------------------------------------------------
 # relevance filters: which driver mismatch kinds break which property's tie
 # ---------------------------------------------------------------------------
 
@@ -138,12 +228,15 @@ def rel_C08(kind, op, detail):
     return kind in ("result", "abs", "state", "bytes") and op in GROW_OPS | {"fill"}
 
 
+MUTATORS = ("ins", "rem", "upd", "init", "ext", "open", "take")
+
+
 def rel_C09(kind, op, detail):
     # a refused operation or a query must leave the state as it was: the model does so by definition
     # (theorem), so any state/bytes difference on such a line is a broken tie for this property
     if kind in ("decode", "parse"):
         return True
-    return kind in ("abs", "state", "bytes") and op not in ("ins", "rem", "upd", "init", "ext", "open")
+    return kind in ("abs", "state", "bytes") and op not in MUTATORS
 
 
 def rel_C10(kind, op, detail):
@@ -165,44 +258,68 @@ COMMON_ASSUME = [
     "key/value types used by the harness have all-zero Default and a total order / Hash consistent with Eq",
 ]
 
+def rel_C02(kind, op, detail):
+    if kind in ("decode", "parse", "wf-placed"):
+        return True
+    return kind in ("result", "abs") and op != "fill"
+
+
+def rel_C03(kind, op, detail):
+    if kind in ("decode", "parse", "wf-sorted"):
+        return True
+    return kind in ("result", "abs") and op not in ("ext", "fill")
+
+
 PROPERTIES = {
+    "C02": {
+        "scopes": lambda tier: hset_scopes(tier),
+        "relevant": rel_C02,
+        "assumptions": COMMON_ASSUME + ["SipHash-1-3 is only executable in the model (validated against DefaultHasher on every placement); the theorems hold for every hash function"],
+        "rule": "implementation transitions (byte state x operation); non-trivial = distinct byte states with a chain of >= 2 values and a non-empty free list",
+    },
+    "C03": {
+        "scopes": lambda tier: aset_scopes(tier),
+        "relevant": rel_C03,
+        "assumptions": COMMON_ASSUME,
+        "rule": "implementation transitions (byte state x operation); non-trivial = distinct byte states with >= 2 members and a free slot",
+    },
     "C01": {
         "scopes": lambda tier: tree_scopes(tier),
         "relevant": rel_C01,
         "assumptions": COMMON_ASSUME,
     },
     "C04": {
-        "scopes": lambda tier: tree_scopes(tier, logs=False),
+        "scopes": lambda tier: tree_scopes(tier, logs=False) + hset_scopes(tier) + aset_scopes(tier, logs=False),
         "relevant": rel_C04,
         "assumptions": COMMON_ASSUME + ["addresses are not part of the model: relocation independence is checked on the implementation (every transition is executed twice, at two addresses), not proved"],
     },
     "C06": {
-        "scopes": lambda tier: tree_scopes(tier, updates=0, fill=0),
+        "scopes": lambda tier: tree_scopes(tier, updates=0, fill=0) + [x for x in aset_scopes(tier, fill=0) if "log" in x["args"]["type"]],
         "relevant": rel_C06,
         "assumptions": COMMON_ASSUME,
     },
     "C07": {
-        "scopes": lambda tier: tree_scopes(tier, updates=0, logs=False),
+        "scopes": lambda tier: tree_scopes(tier, updates=0, logs=False) + hset_scopes(tier),
         "relevant": rel_C07,
         "assumptions": COMMON_ASSUME,
     },
     "C08": {
-        "scopes": lambda tier: [s for s in tree_scopes(tier, updates=0, logs=False) if "max_slots" in s["args"]],
+        "scopes": lambda tier: [s for s in tree_scopes(tier, updates=0, logs=False) + aset_scopes(tier, logs=False) if "max_slots" in s["args"]],
         "relevant": rel_C08,
         "assumptions": COMMON_ASSUME,
     },
     "C09": {
-        "scopes": lambda tier: tree_scopes(tier, logs=False),
+        "scopes": lambda tier: tree_scopes(tier, logs=False, rnd=False) + hset_scopes(tier, rnd=False) + aset_scopes(tier, logs=False, rnd=False),
         "relevant": rel_C09,
         "assumptions": COMMON_ASSUME,
     },
     "C10": {
-        "scopes": lambda tier: tree_scopes(tier, logs=False),
+        "scopes": lambda tier: tree_scopes(tier, logs=False) + hset_scopes(tier) + aset_scopes(tier, logs=False),
         "relevant": rel_C10,
         "assumptions": COMMON_ASSUME,
     },
     "C12": {
-        "scopes": lambda tier: edge_tree_scopes(tier),
+        "scopes": lambda tier: edge_tree_scopes(tier) + edge_other_scopes(tier),
         "relevant": rel_C12,
         "assumptions": COMMON_ASSUME + ["termination of the Rust loops is only watched (timeouts), the model terminates by structural recursion"],
     },
